@@ -19,7 +19,7 @@ BASE_TRUSTED = [
     "Lean 4.33.0 kernel (thorough tier: re-checked with leanchecker)",
     "axioms reported by #print axioms for every property theorem, required to be a subset of {propext, Classical.choice, Quot.sound}; no native_decide / bv_decide / sorry / own axioms (grep on every run)",
     "harness/gen_tables.py (data translator) and the behavioural correspondence harness + canonicaliser",
-    "harness/pytrans.py + lean/Cardutil/Py/Rt.lean (source translator and its rendering of Python built-ins), where a source tie exists (C14-C17)",
+    "harness/pytrans.py + lean/Cardutil/Py/Rt.lean (source translator and its rendering of Python built-ins), where a source tie exists (the `source_tie` entry of this evidence lists the modules, functions and theorems)",
     "CPython 3.12 as execution platform of the implementation",
 ]
 
